@@ -831,25 +831,10 @@ class Exec:
                 return r
         # f-strings are only used as messages: the resulting TEXT is an opaque string term (listed in evidence) -- but a CALL inside a replacement field
         # is evaluated like any other call: it may raise, and an exception raised while a message is being built propagates like any other
-        # (calls known to be total are skipped; operators and format specs applied to the values are assumed not to raise)
-        TOTAL = ('len', 'repr', 'str', 'type', 'id', 'round', 'int', 'float', 'abs', 'perf_counter', 'time.perf_counter', 'monotonic', 'time.monotonic', 'time.time',
-                 'multiprocessing.current_process', 'threading.current_thread', 'current_thread', 'current_process', 'os.getpid')
         todo = []
-
-        def outer_calls(n):
-            if isinstance(n, ast.Call):
-                src = ast.unparse(n.func)
-                if src in TOTAL or self.unit.is_ignored_call(src):
-                    for a in list(n.args) + [k.value for k in n.keywords]:
-                        outer_calls(a)
-                else:
-                    todo.append(n)
-                return
-            for c in ast.iter_child_nodes(n):
-                outer_calls(c)
         for part in e.values:
             if isinstance(part, ast.FormattedValue):
-                outer_calls(part.value)
+                todo += self.effectful_calls(part.value)
         self.note_ignored(e, 'f-string text (kept as opaque string)' + ('; calls inside it are evaluated' if todo else ''))
 
         def go(s, k):
@@ -911,6 +896,40 @@ class Exec:
     def ev_Starred(self, e, st):
         raise Unsupported('starred expression')
 
+    # calls known never to raise (pure look-ups); everything else inside a message is evaluated
+    TOTAL_CALLS = ('len', 'repr', 'str', 'type', 'id', 'round', 'int', 'float', 'abs', 'perf_counter', 'time.perf_counter', 'monotonic', 'time.monotonic', 'time.time',
+                   'multiprocessing.current_process', 'threading.current_thread', 'current_thread', 'current_process', 'os.getpid', 'datetime.now', 'datetime.datetime.now', 'sys.exc_info')
+
+    def effectful_calls(self, n):
+        """outermost calls inside the expression n that are neither known-total nor ignored by pattern (operators and format specs applied to values are assumed not to raise)"""
+        out = []
+
+        def walk(x):
+            if isinstance(x, ast.Call):
+                src = ast.unparse(x.func)
+                if src in self.TOTAL_CALLS or self.unit.is_ignored_call(src):
+                    for a in list(x.args) + [k.value for k in x.keywords]:
+                        walk(a)
+                    if isinstance(x.func, ast.Attribute):
+                        walk(x.func.value)
+                else:
+                    out.append(x)
+                return
+            if isinstance(x, (ast.Lambda, ast.GeneratorExp, ast.ListComp, ast.SetComp, ast.DictComp)):
+                return
+            for c in ast.iter_child_nodes(x):
+                walk(c)
+        walk(n)
+        return out
+
+    def eval_for_effects(self, nodes, st, then):
+        """evaluate the call nodes in order (exceptions propagate), drop their values, continue with then(state)"""
+        def go(s, k):
+            if k == len(nodes):
+                return then(s)
+            return self.bind(self.ev(nodes[k], s), lambda s2, _v: go(s2, k + 1))
+        return go(st, 0)
+
     def note_ignored(self, node, why):
         self.ignored.append((getattr(node, 'lineno', 0), why))
 
@@ -924,8 +943,11 @@ class Exec:
             root = root.func if isinstance(root, ast.Call) else root.value
         shadowed = isinstance(root, ast.Name) and (root.id in st.env or root.id in st.cells)
         if self.unit.is_ignored_call(src, local_root=shadowed):
-            self.note_ignored(e, f'call `{src}(...)` dropped (no effect on the property; assumed not to raise)')
-            return [('ok', st, NONE)]
+            inner = []
+            for a in list(e.args) + [k.value for k in e.keywords]:
+                inner += self.effectful_calls(a)
+            self.note_ignored(e, f'call `{src}(...)` dropped (no effect on the property; assumed not to raise' + ('; calls inside its arguments are evaluated)' if inner else ')'))
+            return self.eval_for_effects(inner, st, lambda s: [('ok', s, NONE)])
         hook = getattr(self.unit, 'on_call', None)
         if hook:
             r = hook(self, st, e, src)
